@@ -258,7 +258,19 @@ pub fn run(args: &[String]) {
         _ => {
             for id in 0..n {
                 let depth = if rng.chance(1, 10) { 5 } else { 3 };
-                let items = gen_items(&mut rng, &syms, depth, 6);
+                let items = if id % 20 == 7 {
+                    // a tower: groups nested 6..=14 deep (the random grammar rarely goes beyond 3), small counts so that totals stay in i32
+                    let d = 6 + rng.below(9);
+                    let mut cur = gen_items_c(&mut rng, &syms, 0, 3, false, 50, 2);
+                    for _ in 0..d {
+                        let mult = rng.pick(&[None, Some("1"), Some("2"), Some("02"), Some("2"), Some("1")]).map(|t| t.to_string());
+                        let mut layer = vec![Item::Gr(cur, mult)];
+                        if rng.chance(1, 3) { layer.extend(gen_items_c(&mut rng, &syms, 0, 2, false, 50, 2)); }
+                        if rng.chance(1, 4) { layer.rotate_right(1); }
+                        cur = layer;
+                    }
+                    cur
+                } else { gen_items(&mut rng, &syms, depth, 6) };
                 let mut s = String::new();
                 render(&items, &mut s);
                 emit(id, &s, &ce, Some(ast_json(&items)));
